@@ -5,15 +5,11 @@ CONSTANTS
   RunCfgSeq <- RunsQuick
   EmitMin = 0
   EmitFrom = 2
-  EmitMod = 8
+  EmitMod = 12
 INIT Init
 NEXT Next
 INVARIANTS
-  OnlySignedContent
-  RejectsUntrusted
-  AcceptsGenuine
-  EncryptionTransparent
+  AllProps
   MustRejectAgrees
   FindSigAgrees
-  Emit
 CHECK_DEADLOCK FALSE
